@@ -558,6 +558,12 @@ C15(c, o) ==
 
 (* ------------------------------------------------------------------ C16 *)
 C16(c, o) ==
+  (* a valid shader whose text the generator cannot embed: it panics, or hands back something that is not a Rust module *)
+  IF HasS(c) /\ ParseOk(o) /\ ValidAll(o) /\ ~ST!DocumentedPanic(c.S, c.opts) /\ BGD!Contract(Decls(c.S), [ kind |-> "ok" ])
+     /\ (o.ret.kind = "panic" \/ (RetOk(o) /\ Has(o, "parsed") /\ ~o.parsed))
+  THEN [ dom |-> TRUE, m |-> MemoFor(c),
+         fails |-> { IF o.ret.kind = "panic" THEN "generation panicked on a valid source (" \o o.ret.msg \o "): SOURCE cannot hold this text"
+                     ELSE "the returned text is not a Rust module, SOURCE cannot be evaluated: " \o (IF Has(o, "parse_err") THEN o.parse_err ELSE "") } ] ELSE
   IF ~(ParseOk(o) /\ Projected(o)) THEN [ dom |-> FALSE, fails |-> {}, m |-> MemoFor(c) ] ELSE
   LET m == MemoFor(c)
       src == o.out.source
